@@ -371,7 +371,11 @@ func (x *Exec) execStore(p *Path, v *ssa.Store) bool {
 	l := a.Loc
 	switch l.Kind {
 	case "lfield":
-		x.frameCheck(p, "list", l.Ref, v)
+		if l.Field == "val" {
+			x.frameCheck(p, "list", l.Ref, v)
+		} else {
+			x.frameCheck(p, "ptr", l.Ref, v)
+		}
 		if l.Field == "val" {
 			x.updMulti(p, map[string]string{
 				"Larr": fmt.Sprintf("(store (Larr %s) %s %s)", p.H, l.Ref, val.Arr),
@@ -382,7 +386,11 @@ func (x *Exec) execStore(p *Path, v *ssa.Store) bool {
 			x.store1(p, "Lptr", l.Ref, val.T)
 		}
 	case "ofield":
-		x.frameCheck(p, "obj", l.Ref, v)
+		if l.Field == "val" {
+			x.frameCheck(p, "obj", l.Ref, v)
+		} else {
+			x.frameCheck(p, "ptr", l.Ref, v)
+		}
 		if l.Field == "val" {
 			x.store1(p, "Omap", l.Ref, val.T)
 		} else {
